@@ -1006,10 +1006,9 @@ def fam_structure(rng, obj, allow_deep=True):
 # --------------------------------------------------------------------------- correspondence families (abstraction exact by construction)
 
 def sval_term(v):
-    """Coq sval for a JSON value written by jdumps"""
+    """Coq sval for a JSON value written by jdumps: a string token (with or without escape
+    sequences) is read as Cow<str> / String since 2f36fc5 - the model gets the decoded value"""
     if isinstance(v, str) and not isinstance(v, Raw):
-        if any(c in '"\\' or ord(c) < 32 for c in v):
-            return "SEsc"
         return "(SStr %s)" % coq_str(v)
     return "SOther"
 
@@ -1068,7 +1067,8 @@ def gen_vkeys(rng):
     if r < 0.85:
         return rng.sample(["v1", "v01", "v2", "v002", "v3"], rng.randint(2, 5))
     if r < 0.95:
-        ks = ["v1", "v2"] + rng.sample(["v0", "v", "x", "", "v4294967296", "V3", "v3 ", "v-1", "v00", "v4294967295x"], rng.randint(1, 3))
+        ks = ["v1", "v2"] + rng.sample(["v0", "v", "x", "", "v4294967296", "V3", "v3 ", "v-1", "v00", "v4294967295x",
+                                         'v"3', "v3\t", "v\\3", "v3\u0000"], rng.randint(1, 3))
         rng.shuffle(ks)
         return ks
     return []
@@ -1266,20 +1266,27 @@ def fam_cross(rng, dest):
     for d in (obj, os.path.join(obj, "v%d" % head)):
         write_file(os.path.join(d, "inventory.json"), data)
         write_file(os.path.join(d, "inventory.json." + ALGN[ralg][0]), ("%s  inventory.json\n" % hexdigest(ALGN[ralg][0], data)).encode())
-    dirs = []
+    dirs, foreign = [], []
     for v in range(head - 1, 0, -1):
         vd = os.path.join(obj, "v%d" % v)
         os.makedirs(vd)
         if rng.random() < 0.15:
             continue                                   # no inventory in this version directory (W010)
         alg = rng.choice([ralg, ralg, 512, 256])
-        vv, vm = gen_abs_inventory(rng, alg, v, truth, weird and rng.random() < 0.6)
-        data = jbytes(concrete_inventory(alg, v, vv, vm))
+        # the inventory of ANOTHER version (lower or higher head) in this directory: a valid inventory that
+        # validate_inventory rejects with E040 (mod.rs:1008-1019) before the cross-inventory loop can see it
+        ih = v
+        if rng.random() < 0.22:
+            ih = rng.choice([k for k in range(1, head + 1) if k != v])
+            foreign.append((v, ih))
+        vv, vm = gen_abs_inventory(rng, alg, ih, truth, weird and rng.random() < 0.6)
+        data = jbytes(concrete_inventory(alg, ih, vv, vm))
         write_file(os.path.join(vd, "inventory.json"), data)
         write_file(os.path.join(vd, "inventory.json." + ALGN[alg][0]), ("%s  inventory.json\n" % hexdigest(ALGN[alg][0], data)).encode())
-        dirs.append("(%d, %s)" % (v, ainv_term(alg, v, vv, vm)))
-    return "corr/cross", {"type": "cross", "root": ainv_term(ralg, head, rv, rm), "dirs": coq_list(dirs),
-                          "desc": {"head": head, "root_alg": ralg, "weird": weird}}
+        dirs.append("(%d, %s)" % (v, ainv_term(alg, ih, vv, vm)))
+    return "corr/cross" + ("-foreign-head" if foreign else ""), {
+        "type": "cross", "root": ainv_term(ralg, head, rv, rm), "dirs": coq_list(dirs),
+        "desc": {"head": head, "root_alg": ralg, "weird": weird, "foreign_heads(dir, head)": foreign}}
 
 
 # ---- dedicated members of the known classes (few: some of them run into the time limit) and of the
@@ -1325,6 +1332,67 @@ def fam_known(rng, obj, which, arg=None):
             first(body, "state").append((dgx, ["ghost.txt"]))
     set_inventory(obj, jbytes(t), rng)
     return ("regress/" if which in REGRESS else "known/") + which
+
+
+# ---- inventories of one version in the directory of another (family "swap": must pass)
+
+def version_dirs(obj):
+    """[(number, directory name)] of the version directories that hold a regular inventory.json, ascending"""
+    out = []
+    try:
+        names = os.listdir(obj)
+    except OSError:
+        return out
+    for n in names:
+        pv = vparse(n)
+        p = os.path.join(obj, n)
+        if pv and os.path.isdir(p) and not os.path.islink(p) and os.path.isfile(os.path.join(p, "inventory.json")):
+            out.append((pv[0], n))
+    return sorted(out)
+
+
+def swap_shapes(obj):
+    """every (shape, j, k) for an object with at least three version inventories"""
+    vds = version_dirs(obj)
+    if len(vds) < 3:
+        return []
+    nums = [n for n, _ in vds]
+    head = nums[-1]
+    out = [("pair", j, k) for j in nums if j != head for k in nums if k != j]
+    out += [("root-into-old", j, 0) for j in nums if j != head]
+    out += [("old-into-head", head, k) for k in nums if k != head]
+    return out
+
+
+def copy_inventory(src, dst, sidecars=True):
+    shutil.copyfile(os.path.join(src, "inventory.json"), os.path.join(dst, "inventory.json"))
+    if sidecars:
+        for n in os.listdir(dst):
+            if n.startswith("inventory.json."):
+                os.remove(os.path.join(dst, n))
+        for n in os.listdir(src):
+            if n.startswith("inventory.json.") and os.path.isfile(os.path.join(src, n)):
+                shutil.copyfile(os.path.join(src, n), os.path.join(dst, n))
+
+
+def fam_swap(obj, shape, j, k):
+    name = dict(version_dirs(obj))
+    if shape == "pair":              # vK's inventory + sidecar in directory vJ (J below the head; K lower or higher)
+        copy_inventory(os.path.join(obj, name[k]), os.path.join(obj, name[j]))
+        return "swap/pair-" + ("lower-head" if k < j else "higher-head")
+    if shape == "root-into-old":     # the root inventory + sidecar in an old version directory
+        copy_inventory(obj, os.path.join(obj, name[j]))
+        return "swap/root-into-old"
+    copy_inventory(os.path.join(obj, name[k]), os.path.join(obj, name[j]), sidecars=False)   # head directory, its sidecar untouched
+    return "swap/old-into-head"
+
+
+def swap_expect(r):
+    if r["vh"]["kind"] != "verdict" or r["vh"].get("nerr", 0) < 1:
+        return "a verdict with validation errors (E040 / E064 ...) for the object, observed %r" % (r["vh"].get("kind"),)
+    if r["cli"]["kind"] != "exit" or r["cli"].get("rc") != 2:
+        return "the release CLI reports an invalid object (exit status 2), observed %r" % (r["cli"],)
+    return None
 
 
 def regress_expect(r):
@@ -1432,6 +1500,8 @@ def build_case(spec, dest):
         kind, corr = fam_header(rng, obj)
     elif fam in ("known", "regress"):
         kind = fam_known(rng, obj, spec["which"], spec.get("arg"))
+    elif fam == "swap":
+        kind = fam_swap(obj, spec["shape"], spec["j"], spec["k"])
     elif fam == "combo":
         kinds = []
         for _ in range(rng.randint(2, 4)):
@@ -1494,10 +1564,10 @@ def do_case(spec):
 
 def scan_object_roots(root):
     """model-free: directories holding a regular file named 0=ocfl_object_*, outermost only; the
-    validator does not enter directories named 'extensions'"""
+    validator does not enter the storage root's own 'extensions' directory (mod.rs:1944-1949)"""
     out = []
     for d, dirs, files in os.walk(root):
-        dirs[:] = [x for x in dirs if x != "extensions" and not os.path.islink(os.path.join(d, x))]
+        dirs[:] = [x for x in dirs if not (x == "extensions" and d == root) and not os.path.islink(os.path.join(d, x))]
         if d != root and any(f.startswith("0=ocfl_object_") and stat.S_ISREG(os.lstat(os.path.join(d, f)).st_mode)
                              for f in files):
             out.append(os.path.relpath(d, root))
@@ -1545,6 +1615,10 @@ def tier_counts(ctx):
     return t
 
 
+def snapshot_from(r):
+    return r.get("files")
+
+
 def failure_kinds(o):
     k = o["kind"]
     if k == "panic":
@@ -1586,6 +1660,17 @@ def make_specs(ctx, bases, libs, vh, rocfl):
     for a in GAP_ARGS:
         for _ in range(1 if ctx.quick() else 3):
             add("regress", lib(), which="version-gap", arg=a)
+    # an inventory found in the directory of another version: every pair for the library objects, a sample for the fixtures
+    fx_swaps = []
+    for b in bases:
+        shapes = swap_shapes(b[1])
+        if b[0].startswith("lib-"):
+            for sh, j, k in shapes:
+                add("swap", b, shape=sh, j=j, k=k)
+        elif b in valid_like:
+            fx_swaps += [(b, x) for x in shapes]
+    for b, (sh, j, k) in (rng.sample(fx_swaps, min(len(fx_swaps), 16)) if ctx.quick() else fx_swaps):
+        add("swap", b, shape=sh, j=j, k=k)
     for a in WIDE_ARGS:
         # a single version (no E013 that ends validation before the number is printed) and a library object
         add("regress", one_version[0], which="wide-padding", arg=a)
@@ -1613,7 +1698,7 @@ def pmap(fn, items, workers):
 
 
 def spec_public(s):
-    return {k: s[k] for k in ("family", "seed", "base_name", "which", "arg", "allow_deep") if k in s}
+    return {k: s[k] for k in ("family", "seed", "base_name", "which", "arg", "shape", "j", "k", "allow_deep") if k in s}
 
 
 def evaluate(ctx, specs, results):
@@ -1643,11 +1728,12 @@ def evaluate(ctx, specs, results):
             site = {"unwrap-err": 1, "unwrap-none": 2, "sub-overflow": 3}
             if r["vh"]["kind"] in ("verdict", "panic"):
                 if r["vh"]["kind"] == "panic":
-                    obs, e066 = site.get(r["vh"]["panic"], 9), 0
+                    obs, e066, e040 = site.get(r["vh"]["panic"], 9), 0, 0
                 else:
                     obs = 0
                     e066 = sum(v.get("E066", 0) for v in r["vh"]["codes"].values())
-                terms.append((r["idx"], "corr:cross", "check_cross true %s %s %d %d" % (c["root"], c["dirs"], obs, e066)))
+                    e040 = sum(v.get("E040", 0) for v in r["vh"]["codes"].values())
+                terms.append((r["idx"], "corr:cross", "check_cross true %s %s %d %d %d" % (c["root"], c["dirs"], obs, e066, e040)))
             if r["cli"]["kind"] in ("exit", "panic"):
                 obs = site.get(r["cli"]["panic"], 9) if r["cli"]["kind"] == "panic" else 0
                 terms.append((r["idx"], "corr:cross-cli", "check_cross_panic false %s %s %d" % (c["root"], c["dirs"], obs)))
@@ -1692,6 +1778,13 @@ def evaluate(ctx, specs, results):
                     "observed": {"harness_debug": r["vh"], "cli_release": r["cli"]},
                     "expected": "repaired class %s: %s" % (r["kind"], want or ("a verdict; observed: " + msg))})
                 continue
+        if r["family"] == "swap" and not msg:
+            want = swap_expect(r)
+            if want:
+                ctx.violation("impl-violation", {
+                    "input": spec_public(s), "mutation": r["kind"], "files": snapshot_from(r),
+                    "observed": {"harness_debug": r["vh"], "cli_release": r["cli"]}, "expected": want})
+                continue
         if msg:
             # every failure kind must be covered by a classifier that holds on this input and is a recorded known finding
             need = NEED
@@ -1731,7 +1824,7 @@ def run_repos(ctx, specs, results, bases, libs, vh, rocfl, stats):
     rng = ctx.rng
     ok_members = []
     for r in results:
-        if "driver_error" in r or r["family"] in ("pristine", "known", "regress"):
+        if "driver_error" in r or r["family"] in ("pristine", "known", "regress", "swap"):
             continue
         if failed(r["vh"]) or failed(r["cli"]) or r["vh"].get("t", 0) > 3 or "path-max" in r["kind"] or "many-files" in r["kind"]:
             continue
@@ -1760,6 +1853,8 @@ def run_repos(ctx, specs, results, bases, libs, vh, rocfl, stats):
                                {"family": "pristine", "seed": 0, "base_name": good[len(good) // 2][0], "base": good[len(good) // 2][1]},
                                dict(lib512, family="regress", which="wide-padding", arg=70000, seed=3),
                                dict(lib512, family="regress", which="version-gap", arg="v400000000", seed=4),
+                               dict(lib512, family="swap", shape="pair", j=2, k=1, seed=5),
+                               dict(lib512, family="swap", shape="root-into-old", j=1, k=0, seed=6),
                                {"family": "pristine", "seed": 0, "base_name": good[-1][0], "base": good[-1][1]}]})
     os.makedirs(os.path.join(ctx.tmp, "repos"), exist_ok=True)
     out = pmap(do_repo, rspecs, min(common.NPROC, 8))
@@ -1837,7 +1932,8 @@ def run(ctx):
                            "known class by the Coq classifier of Model/KnownC17.v evaluated on features extracted from the input by the driver")
     return common.finish_with_proof(
         ctx, proof,
-        rule="(members of the classes repaired in /repo - blank id, version gaps up to u32::MAX, padding wider than 65535 - are must-pass "
+        rule="(every pair of version inventories swapped between version directories of the library objects: must-pass) "
+             "(members of the classes repaired in /repo - blank id, version gaps up to u32::MAX, padding wider than 65535 - are must-pass "
              "inputs: E037 / at most 100 E010 per version key / a verdict, else violation) "
              "object roots = official fixtures and library-written objects, mutated (random bytes, grammar-based JSON with duplicate keys/"
              "deep nesting/huge numbers/lone surrogates/1 MB strings, single edits of every JSON node with field-specific absurd values, "
